@@ -44,16 +44,17 @@ type sigCase struct {
 	Incep    uint32
 	Expir    uint32
 	// material for the invariances
-	Perm      []int    // a permutation seed: record i moves to position Perm[i] mod n (applied as a sort key)
-	Dup       int      // index of a record that is repeated
-	TTLs      []uint32 // replacement current TTLs
-	Expansion [][]byte // labels that replace a leading "*" of the owner (wildcard expansion)
-	Pad       bool     // try the zero-padded ECDSA signature
-	NoCaseInv bool     // set by the generator only (known finding #9, NXT): the RDATA-name case invariance is not evaluated
-	ShortR    int      // ECDSA: n > 0 = Sign gets a signer using the n-th nonce whose point has an X with two leading zero octets (r short)
-	ShortS    bool     // ECDSA: the inception time is searched (upwards from Incep) for a digest that gives an s with two leading zero octets
-	SigSample []int    // sampled signature bit positions for slow algorithms
-	KeySample []int    // sampled key bit positions for the re-tagged key alteration
+	Perm          []int    // a permutation seed: record i moves to position Perm[i] mod n (applied as a sort key)
+	Dup           int      // index of a record that is repeated
+	TTLs          []uint32 // replacement current TTLs
+	Expansion     [][]byte // labels that replace a leading "*" of the owner (wildcard expansion)
+	Pad           bool     // try the zero-padded ECDSA signature
+	NoCaseInv     bool     // set by the generator only (known finding #9, NXT): the RDATA-name case invariance is not evaluated
+	EmbeddedImage bool     // set by the generator: one record's opaque RDATA ends / begins with the canonical form of another (evidence class only)
+	ShortR        int      // ECDSA: n > 0 = Sign gets a signer using the n-th nonce whose point has an X with two leading zero octets (r short)
+	ShortS        bool     // ECDSA: the inception time is searched (upwards from Incep) for a digest that gives an s with two leading zero octets
+	SigSample     []int    // sampled signature bit positions for slow algorithms
+	KeySample     []int    // sampled key bit positions for the re-tagged key alteration
 }
 
 func privFor(alg uint8, slot int, seed []byte) (crypto.PrivateKey, error) {
@@ -299,7 +300,7 @@ func checkSign(c sigCase) (err error) {
 	}
 	classes := []string{fmt.Sprintf("alg=%d", c.Alg), "type=" + typeName(typ), fmt.Sprintf("records=%d", len(c.Set)), fmt.Sprintf("distinct=%d", len(distinct)),
 		fmt.Sprintf("wildcard=%v", wild), fmt.Sprintf("rdata-names=%v", names), fmt.Sprintf("lowertype=%v", lowerTypes[typ]), fmt.Sprintf("rootzone=%v", len(c.Signer) == 0),
-		fmt.Sprintf("origttl-explicit=%v", c.OrigTTL != 0)}
+		fmt.Sprintf("origttl-explicit=%v", c.OrigTTL != 0), fmt.Sprintf("rdata-embeds-another-record=%v", c.EmbeddedImage)}
 	if rk, ok := priv.(*rsa.PrivateKey); ok {
 		classes = append(classes, fmt.Sprintf("rsa-modulus-octets=%d", rk.Size()), fmt.Sprintf("rsa-exponent-octets=%d", (bits.Len(uint(rk.E))+7)/8))
 	}
@@ -359,7 +360,7 @@ func checkSign(c sigCase) (err error) {
 
 	// (1) the library signs
 	sig := &dns.RRSIG{Inception: c.Incep, Expiration: c.Expir, KeyTag: tag, SignerName: wm.EscName(c.SignerAs), Algorithm: c.Alg, OrigTtl: c.OrigTTL}
-	if serr := sig.Sign(signer, libSet); serr != nil {
+	if serr := sig.Sign(ref.RandCheckedSigner{Inner: signer}, libSet); serr != nil { // the signer insists on a usable entropy source
 		return pbt.Errf("RRSIG.Sign failed: %v (owner %s type %s alg %d, %d records)", serr, wm.EscName(owner), typeName(typ), c.Alg, len(c.Set))
 	}
 	raw, derr := base64.StdEncoding.DecodeString(sig.Signature)
@@ -614,6 +615,53 @@ func checkSign(c sigCase) (err error) {
 			add(fmt.Sprintf("RRSIG and key algorithm := %d", a), func(w *world) bool { w.F.Alg, w.KeyAlg = a, a; return true })
 			break
 		}
+	}
+	// the two names that neither signature nor key tag covers - the DNSKEY owner (compared with the
+	// signer) and the RRSIG's own owner (compared with the RRset's) - replaced by names that are equal
+	// only under Unicode case folding of the text: KELVIN SIGN (E2 84 AA) for k/K, LATIN SMALL LONG S
+	// (C5 BF) for s/S, another octet >= 0x80 (both invalid UTF-8), and the "other case" of the
+	// non-letters @ [ \ ] ^ ` { | } ~. DNS names compare octet by octet with ASCII letters folded only.
+	partner := func(n wm.Name) (wm.Name, string) {
+		for li, l := range n {
+			for bi, b := range l {
+				var rep []byte
+				kind := ""
+				switch {
+				case b == 'k' || b == 'K':
+					rep, kind = []byte{0xE2, 0x84, 0xAA}, "KELVIN SIGN for k"
+				case b == 's' || b == 'S':
+					rep, kind = []byte{0xC5, 0xBF}, "LONG S for s"
+				case b >= 0x80:
+					rep, kind = []byte{b ^ 0x11 | 0x80}, "another octet >= 0x80"
+				case b == '@' || b == '`' || (b >= '[' && b <= '^') || (b >= '{' && b <= '~'):
+					rep, kind = []byte{b ^ 0x20}, "near-case non-letter"
+				default:
+					continue
+				}
+				o := n.Clone()
+				o[li] = append(append(append([]byte(nil), l[:bi]...), rep...), l[bi+1:]...)
+				if o.Valid() && !equalFold(o, n) {
+					return o, kind
+				}
+			}
+		}
+		return nil, ""
+	}
+	if p, kind := partner(signed.KeyOwner); p != nil {
+		add("DNSKEY owner with "+kind+" (names spelled raw)", func(w *world) bool {
+			w.KeyOwner = p
+			t1, t2 := rawEsc(p), rawEsc(w.F.Signer)
+			w.KeyOwnerText, w.SignerText = &t1, &t2
+			return true
+		})
+	}
+	if p, kind := partner(signed.SigOwner); p != nil {
+		add("RRSIG owner with "+kind+" (names spelled raw), RRset unchanged", func(w *world) bool {
+			w.SigOwner = p
+			t1 := rawEsc(p)
+			w.SigOwnerText = &t1
+			return true
+		})
 	}
 	// the key
 	retag := func(w *world) { w.F.KeyTag = ref.KeyTag(w.keyRdata()) }
@@ -886,7 +934,20 @@ func genSign(t *rapid.T) sigCase {
 	if len(zone) == 0 && rapid.IntRange(0, 2).Draw(t, "rootzone") > 0 {
 		zone = wm.Name{gen.Label(t, no)}
 	}
+	if len(zone) > 0 && rapid.IntRange(0, 2).Draw(t, "foldbait") == 0 {
+		// letters and octets whose text has case partners outside ASCII, or a "case" that is none
+		zone[0] = append([]byte{rapid.SampledFrom([]byte{'k', 'K', 's', 'S', 0xE9, 0xFF, '[', '@', '~'}).Draw(t, "bait")}, zone[0]...)
+		if len(zone[0]) > 63 {
+			zone[0] = zone[0][:63]
+		}
+	}
 	sub := gen.Name(t, gen.NameOpts{MaxLabs: 3, MaxLabel: 8, Plain: no.Plain})
+	if len(sub) > 0 && rapid.IntRange(0, 3).Draw(t, "foldbait2") == 0 {
+		sub[0] = append([]byte{rapid.SampledFrom([]byte{'k', 's', 'S', 0xC9, '{'}).Draw(t, "bait2")}, sub[0]...)
+		if len(sub[0]) > 63 {
+			sub[0] = sub[0][:63]
+		}
+	}
 	wild := rapid.IntRange(0, 3).Draw(t, "wild") == 0
 	if wild {
 		if len(sub) > 0 && rapid.Bool().Draw(t, "wilddeep") {
@@ -976,6 +1037,30 @@ func genSign(t *rapid.T) sigCase {
 		}
 		c.Set = append(c.Set, r)
 	}
+	if rapid.IntRange(0, 11).Draw(t, "embedded") == 0 {
+		// records with opaque RDATA one of which ends (or begins) with the complete canonical form of
+		// another one - owner | type | class | original TTL | RDLENGTH | RDATA - and sorts right
+		// before it: RFC 4034 6.3 removes records with *equal* RDATA, nothing else
+		etyp := rapid.SampledFrom([]uint16{wm.TNULL, 65400, 65279, 11}).Draw(t, "etype")
+		ottl := rapid.Uint32Range(1, 1<<32-1).Draw(t, "ettl")
+		q := append([]byte{byte(rapid.IntRange(1, 255).Draw(t, "qfirst"))}, rapid.SliceOfN(rapid.Byte(), 0, 12).Draw(t, "q")...)
+		image := wm.EncodeName(owner.Lower())
+		image = append(image, byte(etyp>>8), byte(etyp), byte(class>>8), byte(class), byte(ottl>>24), byte(ottl>>16), byte(ottl>>8), byte(ottl), byte(len(q)>>8), byte(len(q)))
+		image = append(image, q...)
+		pfx := append([]byte{byte(rapid.IntRange(0, int(q[0])-1).Draw(t, "pfirst"))}, rapid.SliceOfN(rapid.Byte(), 0, 6).Draw(t, "p")...)
+		mk := func(d []byte) wm.Rec {
+			return wm.Rec{Name: owner.Clone(), Type: etyp, Class: class, TTL: rapid.Uint32().Draw(t, "ettl2"), Fields: []wm.Field{{K: wm.Rest, B: d}}}
+		}
+		set := []wm.Rec{mk(append(append([]byte(nil), pfx...), image...)), mk(q)}
+		if rapid.Bool().Draw(t, "alsoprefix") {
+			set = append(set, mk(append(append([]byte(nil), image...), pfx...)))
+		}
+		if rapid.Bool().Draw(t, "reorder") {
+			set[0], set[1] = set[1], set[0]
+		}
+		c.Set, c.OrigTTL = set, ottl
+		c.EmbeddedImage = true
+	}
 	c.Alg = rapid.SampledFrom(algs).Draw(t, "alg")
 	c.KeySlot = rapid.IntRange(0, ref.RSAPoolSize()-1).Draw(t, "slot")
 	c.KeySeed = rapid.SliceOfN(rapid.Byte(), 1, 40).Draw(t, "seed")
@@ -983,7 +1068,7 @@ func genSign(t *rapid.T) sigCase {
 	if rapid.IntRange(0, 7).Draw(t, "kflagsany") == 0 {
 		c.KeyFlags = 0x0100 | rapid.Uint16().Draw(t, "kf")
 	}
-	if rapid.Bool().Draw(t, "explicitttl") {
+	if rapid.Bool().Draw(t, "explicitttl") && !c.EmbeddedImage {
 		c.OrigTTL = rapid.OneOf(rapid.SampledFrom([]uint32{1, 3600, 1<<32 - 1}), rapid.Uint32Range(1, 1<<32-1)).Draw(t, "origttl")
 	}
 	c.Incep = rapid.Uint32().Draw(t, "incep")
